@@ -87,7 +87,11 @@ def check_pt(impl, res, ctx):
         if r["kind"] != m["outcome"]:
             errs.append("real iterate_pure_t ends with %r, the model run with %r" % (r["kind"], m["outcome"]))
         elif r["kind"] == "ok":
-            d = max(rel(r["rho_v"], m["rho_v"]), rel(r["rho_l"], m["rho_l"]))
+            # the pair of densities is compared as a set (a variant of the code that orders the returned phases with
+            # from_states is equally accepted); that the vapor is the less dense one is required separately below
+            mp = sorted([m["rho_v"], m["rho_l"]]) if None not in (m["rho_v"], m["rho_l"]) else [None, None]
+            rp = sorted([r["rho_v"], r["rho_l"]])
+            d = max(rel(rp[0], mp[0]), rel(rp[1], mp[1]))
             worst = max(worst, d)
             if not d <= FINAL_RTOL:
                 errs.append("returned densities differ from the last pass of the model by %g (relative)" % d)
